@@ -86,7 +86,7 @@ def main():
         # the warm-up runs the library on small standard inputs before any watchdog exists: bound it with an alarm whose
         # default action kills the process even inside compiled code (core.run_impl reports that as non-termination)
         signal.signal(signal.SIGALRM, signal.SIG_DFL)
-        signal.alarm(int(os.environ.get('VERIF_WARMUP_LIMIT', '1200')))
+        signal.alarm(int(os.environ.get('VERIF_WARMUP_LIMIT', '600')))
         mod.warmup()
         signal.alarm(0)
     sys.stderr.write("[worker %s] setup+warmup %.1fs\n" % (os.environ.get('VERIF_MODE', '?'), time.time() - t0))
